@@ -200,6 +200,9 @@ def _init_strategy():
         n = len(scn["cards"])
         first = draw(st.sampled_from([1, 1, 0]))   # numbering from 1, or from 0 (the first card's number is then 0)
         nums = [int(v) for v in draw(st.permutations(list(range(first, n + first))))]
+        # sample numbers are 256-bit integers in practice: distinct numbers may share all their leading 53 bits
+        base = draw(st.sampled_from([0, 0, 0, 2 ** 64, 2 ** 200, 2 ** 255 + 2 ** 254]))
+        nums = [base + v for v in nums]
         rehearsal = [int(v) for v in draw(st.permutations(list(range(1, n + 1))))] if draw(st.integers(0, 3)) == 0 else None
         return {"scn": scn, "sample_nums": nums, "rehearsal": rehearsal}
 
